@@ -91,7 +91,7 @@ PyStr(v) == CASE v.k = "str" -> v.s
               [] v.k = "num" -> IntStr(v.n)
               [] v.k = "default" -> DefaultText
               [] v.k = "seq" -> "SEQ" [] v.k = "map" -> "MAP" [] v.k = "iter" -> "ITER"
-              [] v.k = "call" -> "FN" [] OTHER -> "?" \o v.k
+              [] v.k = "call" -> "<FN>" [] OTHER -> "?" \o v.k
 \* TAL truth (cmdCondition, evaluateNot, cmdOmitTag): nothing, zero, empty string, empty sequence
 \* and empty mapping are false; everything else - including `default` - is true
 Truthy(v) == CASE v.k \in {"none", "nf"} -> FALSE
